@@ -9,6 +9,7 @@ import (
 	"encoding/json"
 	"fmt"
 	"math"
+	"math/big"
 	"strings"
 	"time"
 	"unicode/utf8"
@@ -753,6 +754,26 @@ func genJSONString(r *rng, b *strings.Builder) {
 }
 
 func genJSONNumber(r *rng) string {
+	if r.chance(1, 6) {
+		// integers of 15..25 digits, and the neighbours of 2^31, 2^32, 2^53, 2^63, 2^64 and 10^19..10^22
+		switch r.intn(3) {
+		case 0:
+			n := 15 + r.intn(11)
+			var b strings.Builder
+			b.WriteByte(byte('1' + r.intn(9)))
+			for i := 1; i < n; i++ {
+				b.WriteByte(byte('0' + r.intn(10)))
+			}
+			return []string{"", "-"}[r.intn(2)] + b.String()
+		case 1:
+			base := []string{"2147483648", "4294967296", "9007199254740992", "9223372036854775808", "18446744073709551616", "36893488147419103232", "10000000000000000000", "100000000000000000000", "1000000000000000000000", "10000000000000000000000", "99999999999999999999", "18446744073709551615"}[r.intn(12)]
+			bi, _ := new(big.Int).SetString(base, 10)
+			bi.Add(bi, big.NewInt(int64(r.intn(5)-2)))
+			return []string{"", "-"}[r.intn(2)] + bi.String()
+		default:
+			return fmt.Sprintf("%d%018d.%d", 1+r.intn(99), r.next()%1000000000000000000, r.intn(100))
+		}
+	}
 	switch r.intn(12) {
 	case 0:
 		return "0"
